@@ -209,6 +209,12 @@ def p_switch_bare_distribution_branch(script, v):
     return walk(script["programs"][0])
 
 
+def p_mask_false_on_index_choice(script, v):
+    # only scripts that explicitly allow it (the witness) put a False-masked
+    # constraint on an index-selecting choice
+    return bool(script.get("mask_false_on_index"))
+
+
 def p_true(script, v):
     return True
 
